@@ -72,8 +72,24 @@ def post_c06(text, out):
     except Exception as e:
         return f"second-rebuild-raises:{type(e).__name__}"
     if out2 != out:
+        # does the second pass change anything but the inside of comments?
+        l1, l2 = G.leaves(G.parse_cst_lenient(out)[0]), G.leaves(G.parse_cst_lenient(out2)[0])
+        skel = lambda lv, txt: [(t, x if t != "comment" else "") for t, x, _s, _e in lv]
+        if skel(l1, out) == skel(l2, out2) and _gaps(out, l1) == _gaps(out2, l2):
+            return "not-a-fixed-point:comment-body-drifts"
         return "not-a-fixed-point"
     return None
+
+
+def _gaps(text, lv):
+    b = text.encode("utf-8")
+    out = []
+    prev = 0
+    for t, x, s, e in lv:
+        out.append(b[prev:s])
+        prev = e
+    out.append(b[prev:])
+    return out
 
 
 _CLOSERS = {"}": "{", "]": "[", ")": "("}
